@@ -27,7 +27,7 @@ BOGUS = 999999       # id standing for a non-layer object
 INSERTING = ("append", "extend", "insert", "setitem", "setslice")
 # attribute setters that are outside the modelled state (model operation `attr x`: nothing but the
 # attribute changes - no list, pointer, dirty flag or cached box)
-ATTR_OPS = ("rename", "clip", "opacity")
+ATTR_OPS = ("rename", "clip", "opacity", "maskoff")
 
 
 # ------------------------------------------------------------------------------------------
@@ -287,6 +287,22 @@ def build(recipe) -> World:
         fg = Group.new("fg")
         fg.append(_px(A, mode, "f", 2, 0, 3, 1))
         w.reg_tree(fg)
+    elif shape == "clips":
+        # clipping runs (C14 degenerate end states): a base with two half transparent clipping layers inside a group,
+        # a base with one clipping layer at the top level; releasing the last of them leaves a document without any
+        g = Group.new("g", parent=A)
+        g.append(_px(A, mode, "base", 1, 1, 5, 5))
+        for k in range(2):
+            c = _px(A, mode, "clip%d" % k, 3 + 2 * k, 0, 4, 3, clip=True)
+            c._record.opacity = 128
+            g.append(c)
+        A.append(_px(A, mode, "base2", 0, 5, 4, 3))
+        c = _px(A, mode, "clip2", 2, 4, 4, 3, clip=True)
+        c._record.opacity = 128
+        A.append(c)
+        w.reg_tree(A)
+        w.reg(_px(A, mode, "fresh", 3, 0))
+        w.reg(Group.new("fg"))
     elif shape == "board":
         # a document with artboards (API-built, typed by the reader: saved and reopened once)
         import docbuild
@@ -348,6 +364,17 @@ def _artboard_rect(a):
     return tuple(int(r.get(k)) for k in (b"Left", b"Top ", b"Rght", b"Btom"))
 
 
+def block_keys(o):
+    """the tagged-block keys of the record of a layer, in stored order, as numbers (model: `State.blocks`); () for a
+    document"""
+    if _kind(o) == "d":
+        return ()
+    tb = getattr(getattr(o, "_record", None), "tagged_blocks", None)
+    if tb is None:
+        return ()
+    return tuple(int.from_bytes(bytes(getattr(key, "value", key))[:8], "big") for key in tb.keys())
+
+
 def node_fields(w: World, i: int):
     o = w.objs[i]
     k = _kind(o)
@@ -374,7 +401,7 @@ def node_fields(w: World, i: int):
         box = (r.left, r.top, r.right, r.bottom)
     cache = None if k == "l" else getattr(o, "_bbox", None)
     dirty = bool(o._updated_layers) if k == "d" else False
-    return k, kids, par, psd, vis, tuple(box), cache, dirty
+    return k, kids, par, psd, vis, tuple(box), cache, dirty, block_keys(o)
 
 
 def _nats(l):
@@ -386,14 +413,20 @@ def _opt(x):
 
 
 def node_str(i, f):
-    k, kids, par, psd, vis, box, cache, dirty = f
+    k, kids, par, psd, vis, box, cache, dirty, blocks = f
     return " ".join([str(i), k, _nats(kids), _opt(par), _opt(psd), "1" if vis else "0", _box(box),
-                     "_" if cache is None else _box(cache), "1" if dirty else "0"])
+                     "_" if cache is None else _box(cache), "1" if dirty else "0", _nats(blocks)])
 
 
 def mask_cache(node: str) -> str:
     f = node.split(" ")
     f[7] = "*"
+    return " ".join(f)
+
+
+def mask_blocks(node: str) -> str:
+    f = node.split(" ")
+    f[9] = "*"
     return " ".join(f)
 
 
@@ -414,9 +447,9 @@ def dump(w: World) -> dict:
 def init_str(w: World) -> str:
     parts = ["%d %d" % (LIMIT, len(w.objs))]
     for i in w.ids():
-        k, kids, par, psd, vis, box, cache, dirty = node_fields(w, i)
+        k, kids, par, psd, vis, box, cache, dirty, blocks = node_fields(w, i)
         parts.append(" ".join([str(i), k, _opt(par), _opt(psd), "1" if vis else "0", _box(box),
-                               "_" if cache is None else _box(cache), "1" if dirty else "0", _nats(kids)]))
+                               "_" if cache is None else _box(cache), "1" if dirty else "0", _nats(kids), _nats(blocks)]))
     return ";".join(parts)
 
 
@@ -424,7 +457,7 @@ def structure(w: World):
     """what `refused => unchanged` speaks about: lists and back pointers of every object"""
     out = {}
     for i in w.ids():
-        k, kids, par, psd, vis, box, cache, dirty = node_fields(w, i)
+        k, kids, par, psd, vis, box, cache, dirty, _blocks = node_fields(w, i)
         out[i] = (tuple(kids), par, psd)
     return out
 
@@ -520,6 +553,8 @@ def apply_real(w: World, op):
             O(op[1]).clipping_layer = op[2]; return "none"
         if name == "opacity":
             O(op[1]).opacity = op[2]; return "none"
+        if name == "maskoff":                # disable / enable the layer mask through the public view
+            O(op[1]).mask.flags.mask_disabled = bool(op[2]); return "none"
         if name == "obs":
             return observe_real(w, op[1:])
         raise core.Infra("unknown op %r" % (op,))
@@ -597,6 +632,9 @@ def _digest(b):
 def opaque_answer(w: World, kind: str, x: int):
     """the answer of one opaque read-only call on object x (exceptions are values)"""
     o = w.objs[x]
+    if kind.startswith("m:"):              # a member found by reflection (harness/members.py), e.g. "m:locks"
+        import members
+        return members.answer(w, x, kind[2:])
     try:
         if kind == "composite":
             r = o.composite()
@@ -1073,6 +1111,7 @@ class Trace:
         self.opaque_answers = [] # answers of opaque observations, in order
         self.out_of_model = None # step whose behaviour the model does not cover (pixel conversion raised)
         self.world = None
+        self.new_attributes = set()  # (class, attribute, call) lazily created by read-only calls (caches)
 
 
 def first_inserted(op):
@@ -1088,7 +1127,25 @@ def first_inserted(op):
     return []
 
 
-def run_history(recipe, ops, check_inv=True, check_fresh=True, check_shadow=True, stop_on_problem=True) -> Trace:
+def _stored_state(w, full=None):
+    import members
+    return members.stored_state(w, full)
+
+
+def _member_name(kind: str) -> str:
+    """signature part of an opaque call: reflective members without their argument tokens"""
+    if not kind.startswith("m:"):
+        return kind
+    import re
+    return re.sub(r"\((.*?)\)", "()", kind[2:]).replace("/", "-")
+
+
+def _what_sig(what: str) -> str:
+    return what.replace(" ", "-").replace(":", "-")
+
+
+def run_history(recipe, ops, check_inv=True, check_fresh=True, check_shadow=True, stop_on_problem=True,
+                check_stored=True) -> Trace:
     """ops may contain ("opaque", kind, id) items (C14): they are executed (twice in a row: the same
     read-only call must give the same answer) and given to the model as the `touch` observation describing
     the caches they filled."""
@@ -1097,23 +1154,69 @@ def run_history(recipe, ops, check_inv=True, check_fresh=True, check_shadow=True
     t.world = w
     t.init = init_str(w)
     sh = Shadow(w) if check_shadow else None
+    mirror = {i: block_keys(w.objs[i]) for i in w.ids()}     # the model's tagged-block key lists (State.blocks)
+    carried = None           # (target, stored state) after the previous read-only call (None: an edit came in between)
+    run_start = None         # full stored state at the start of the current run of consecutive read-only calls
+    attributed = False       # a call of the current run was found to write
+
+    def close_run():
+        """at the end of a run of consecutive read-only calls: everything stored, serialised, against the start of
+        the run (what the per-call comparison - the target in full, the other objects by identity, fields and key
+        lists - cannot see)"""
+        nonlocal run_start, attributed
+        if run_start is not None and not attributed and t.ops:
+            import members
+            for i, what, a, b in members.state_diff(run_start[1], _stored_state(w)):
+                if what.startswith("new-attribute:"):
+                    continue
+                t.problems.append(("C14", "C14/impure/read-writes/some-read-only-call/%s" % _what_sig(what),
+                                   "one of the read-only calls of steps %d..%d changed what is stored: %s of object %d was "
+                                   "%s, is %s" % (run_start[0], len(t.ops) - 1, what, i, _shorten(a), _shorten(b)),
+                                   len(t.ops) - 1))
+        run_start, attributed = None, False
+
     for k, op in enumerate(ops):
         if op[0] == "opaque":
-            if op[2] is None or op[2] >= len(w.objs) or w.objs[op[2]] is None or op[1] not in OPAQUE:
+            if op[2] is None or op[2] >= len(w.objs) or w.objs[op[2]] is None or not (
+                    op[1] in OPAQUE or op[1].startswith("m:")):
                 continue
+            # what is STORED (records, tagged-block key lists and bytes, channel planes, non-cache attributes of
+            # every object, document sections) before and after the call; save() is documented to refresh the
+            # merged image and is compared through its bytes instead
+            stored = None
+            if check_stored and op[1] != "save":
+                if run_start is None:
+                    run_start = (len(t.ops), _stored_state(w))
+                stored = carried[1] if (carried is not None and carried[0] == op[2]) else _stored_state(w, (op[2],))
+            elif check_stored:
+                close_run()
+            carried = None
             ans, touch, again = opaque_observe(w, op[1], op[2])
             t.opaque_answers.append((op[1], op[2], ans))
             # executed already; for the model it is a touch (possibly of nothing)
             t.ops.append(op)
             t.outs.append("none")
             t.dumps.append(dump(w))
-            t.mops.append(touch or ("obs", "touch", ()))
+            # (a reflected member that cached nothing is the model's `getter` observation)
+            t.mops.append(touch or (("obs", "getter", op[2]) if op[1].startswith("m:") else ("obs", "touch", ())))
             t.mouts.append("none")
             t.mdumps.append(t.dumps[-1])
             t.msrc.append(len(t.ops) - 1)
             step_problems = []
+            if stored is not None:
+                import members
+                carried = (op[2], _stored_state(w, (op[2],)))   # (the state after this call is the state before the next)
+                for i, what, a, b in members.state_diff(stored, carried[1]):
+                    if what.startswith("new-attribute:"):
+                        t.new_attributes.add((type(w.objs[i]).__name__, what[14:], _member_name(op[1])))
+                        continue                # a lazily created attribute is a cache until an answer or the bytes differ
+                    attributed = True
+                    step_problems.append(("C14", "C14/impure/read-writes/%s/%s" % (_member_name(op[1]), _what_sig(what)),
+                                          "%s of object %d (%s) changed what is stored: %s of object %d was %s, is %s"
+                                          % (_member_name(op[1]), op[2], type(w.objs[op[2]]).__name__, what, i,
+                                             _shorten(a), _shorten(b))))
             if again != ans:
-                step_problems.append(("C14", "C14/impure/%s-twice-differs" % op[1],
+                step_problems.append(("C14", "C14/impure/%s-twice-differs" % _member_name(op[1]),
                                       "%s of object %d called twice in a row answers %s, then %s"
                                       % (op[1], op[2], _shorten(ans), _shorten(again))))
             if check_fresh and op[1] == "find" and isinstance(ans, list) and all(len(v) == 1 for v in w.listed().values()):
@@ -1142,6 +1245,9 @@ def run_history(recipe, ops, check_inv=True, check_fresh=True, check_shadow=True
                 t.stopped = len(t.ops) - 1
                 break
             continue
+        carried = None
+        if check_stored:
+            close_run()
         listed_before = w.listed()
         before = structure(w)
         cache_before = {c: getattr(w.objs[c], "_bbox", None) for c in w.conts()}
@@ -1163,15 +1269,36 @@ def run_history(recipe, ops, check_inv=True, check_fresh=True, check_shadow=True
         t.mops.append(model_op(op))
         t.mouts.append(out)
         t.msrc.append(len(t.ops) - 1)
+        # which tagged blocks the records carry is outside the modelled edits (a new layer comes with its blocks, the
+        # name setter adds the Unicode name, adoption fetches shared blocks ...): after an EDIT the key lists that
+        # changed are given to the model (`setblocks`), never after a read-only call - there a change is a disagreement
+        changed = []
+        if op[0] != "obs":
+            for i in w.ids():
+                now = block_keys(w.objs[i])
+                if now != mirror.get(i, ()):
+                    mirror[i] = now
+                    changed.append(i)
+        follow = []             # model steps after the operation itself: (model op, ids whose cache / blocks are not compared yet)
         if filled:
+            follow.append((("obs", "touch", tuple(filled)), (), changed))
+        for n, i in enumerate(changed):
+            follow.append((("setblocks", i, mirror[i]), (), changed[n + 1:]))
+        if follow:
             d0 = dict(t.dumps[-1])
             for c in filled:
                 d0[c] = mask_cache(d0[c])      # not compared before the touch
+            for i in changed:
+                d0[i] = mask_blocks(d0[i])     # not compared before the setblocks
             t.mdumps.append(d0)
-            t.mops.append(("obs", "touch", tuple(filled)))
-            t.mouts.append("none")
-            t.mdumps.append(t.dumps[-1])
-            t.msrc.append(len(t.ops) - 1)
+            for mop, _, pending in follow:
+                d1 = dict(t.dumps[-1])
+                for i in pending:
+                    d1[i] = mask_blocks(d1[i])
+                t.mops.append(mop)
+                t.mouts.append("none")
+                t.mdumps.append(d1)
+                t.msrc.append(len(t.ops) - 1)
         else:
             t.mdumps.append(t.dumps[-1])
         step_problems = []
@@ -1213,6 +1340,8 @@ def run_history(recipe, ops, check_inv=True, check_fresh=True, check_shadow=True
         if step_problems and stop_on_problem:
             t.stopped = len(t.ops) - 1
             break
+    if check_stored:
+        close_run()
     return t
 
 
@@ -1791,7 +1920,10 @@ MODEL_COVERAGE = {
                    "__delitem__ (index, slice)", "delete_layer", "move_to_group", "move_up", "move_down", "Group.new",
                    "Group.group_layers", "PixelLayer.frompil (allocation)", "visible / left / top setters",
                    "name / opacity / clipping_layer setters (model operation `attr`: nothing of the modelled state changes)",
-                   "bbox / size / repr / descendants / len / index / count / getitem / in / is_visible"],
+                   "bbox / size / repr / descendants / len / index / count / getitem / in / is_visible",
+                   "every other public getter / query found by reflection (model observation `getter`: writes nothing)",
+                   "the tagged-block key list of every record (State.blocks; edits report it with `setblocks`, read-only "
+                   "calls must leave it alone)"],
     "opaque": ["PixelLayer._convert", "_fetch_tagged_blocks", "composite / numpy / topil / save to a throw-away buffer / "
                "find / iteration / clip_layers reads (their cache effects are replayed as `touch`; everything else of "
                "the dump - lists, pointers, dirty flag - must be unchanged)", "the clipping relation itself (C15)"],
